@@ -58,7 +58,7 @@ static constexpr size_t kSiteTab = 1u << 15;
 // behind the dead case and prints the merged summary.
 struct CaseStats {
   uint64_t cases = 0, fired_cases = 0, reported = 0, tolerated = 0, not_fired = 0;
-  uint64_t retry_ok = 0, requests_failed = 0;
+  uint64_t retry_ok = 0, requests_failed = 0, continue_ok = 0, emits_refused = 0;
   uint64_t errs_by_code[64] {};
 };
 struct Shared {
@@ -337,6 +337,7 @@ public:
 struct Result {
   std::string main;   // compared with the failure-free run whenever nothing was reported
   std::string aux;    // best-effort text (logs) and implementation-defined choices: compared in the retry only
+  const char* defect_kind = "jit-memory-kept-after-failed-add";
   std::string defects; // observations that are wrong whether or not an error was reported (e.g. JIT memory a failed add() kept)
   std::string image;  // hex of the last flattened image (diagnostics: lets the Python side compare two images structurally)
   void put(const char* tag, const void* p, size_t n) { main += tag; main += '='; main += hexstr(p, n); main += ';'; }
@@ -365,6 +366,10 @@ struct Workload {
   // never got that far is compared with the first-run output), else 0.
   virtual int recover(int strategy, Rec& R) = 0;
   virtual void destroy() = 0;
+  // "continue" recovery: the caller skipped the calls that reported an error and carried on with the same objects.
+  // A workload that supports it rebuilds, on FRESH objects and failure-free, the program without exactly those calls;
+  // phase-1 output must then equal that reference (instead of the complete failure-free output). False = not supported.
+  virtual bool reference(Rec&, Result&) { return false; }
 };
 
 // =========================================================================================================
@@ -1452,6 +1457,156 @@ struct W4 : Workload {
   void destroy() override { as.reset(); code.reset(); rt.reset(); }
 };
 
+// =========================================================================================================
+// W7 - one-shot emitter state (opmask / rep counter / lock / explicit options / inline comment) and "continue" recovery:
+//      an emit call that reports an error is skipped by the caller, which carries on with the SAME emitter.
+// =========================================================================================================
+
+struct W7Regs {
+  x86::Vec a, b, c; x86::KReg k1, k2; x86::Gp p, g1, g2, cnt;
+};
+
+// One emit call of the program. Kinds alternate "carries one-shot state" / "plain instruction that would show it".
+template<typename EM>
+static Error w7_slot(EM& e, uint32_t i, const W7Regs& r, bool with_rep) {
+  static const char kComment[] = "one-shot inline comment";
+  switch (i % 12u) {
+    case 0:  return e.k(r.k1).vaddps(r.a, r.b, r.c);
+    case 1:  return e.vsubps(r.a, r.b, r.c);
+    case 2:  return e.k(r.k2).z().vaddps(r.b, r.a, r.c);
+    case 3:  return e.vmulps(r.c, r.a, r.b);
+    case 4:  return e.lock().add(x86::dword_ptr(r.p, int32_t((i % 64u) * 4u)), r.g1);
+    case 5:  return e.add(x86::dword_ptr(r.p, int32_t((i % 64u) * 4u)), r.g2);
+    case 6:  e.add_inst_options(InstOptions::kX86_ModMR); return e.mov(r.g1, r.g2);
+    case 7:  return e.mov(r.g2, r.g1);
+    case 8:  if (with_rep) return static_cast<x86::EmitterExplicitT<EM>&>(e).rep(r.cnt).movs(x86::byte_ptr(x86::rdi), x86::byte_ptr(x86::rsi));   // rep with an explicit counter register (extra_reg)
+             return e.k(r.k1).vpaddd(r.a, r.a, r.b);
+    case 9:  if (with_rep) return e.movs(x86::byte_ptr(x86::rdi), x86::byte_ptr(x86::rsi));
+             return e.vpsubd(r.b, r.b, r.c);
+    case 10: e.set_inline_comment(kComment); return e.sub(r.g1, r.g2);
+    default: return e.xor_(r.g2, r.g1);
+  }
+}
+
+// EMITTER: 0 = x86::Assembler, 1 = x86::Builder, 2 = x86::Compiler (virtual registers)
+template<int EMITTER>
+struct W7 : Workload {
+  std::optional<CodeHolder> code;
+  std::optional<x86::Assembler> as;
+  std::optional<x86::Builder> cb;
+  std::optional<x86::Compiler> cc;
+  std::optional<StringLogger> logger;
+  CountingHandler eh;
+  std::vector<uint8_t> dropped;     // emit calls of the last body() run that returned an error
+  static constexpr uint64_t kBase = 0x00007F5500010000ull;
+
+  uint32_t slots() const { return (EMITTER == 0 ? 1700u : EMITTER == 1 ? 340u : 200u) + uint32_t(P.seed % 7u) * 12u; }
+
+  void construct() override { code.emplace(); logger.emplace(); if (EMITTER == 0) as.emplace(); else if (EMITTER == 1) cb.emplace(); else cc.emplace(); }
+
+  template<typename EM>
+  void program(EM& e, Rec& R, Result& out, const std::vector<uint8_t>* skip, std::vector<uint8_t>* drop) {
+    W7Regs r;
+    Labels L;
+    if constexpr (std::is_same<EM, x86::Compiler>::value) {
+      x86::Compiler& c = e;
+      FuncNode* fn = c.add_func(FuncSignature::build<int, int*, int>());
+      if (!fn) { R.null_result(); return; }
+      r.a = c.new_zmm("a"); r.b = c.new_zmm("b"); r.c = c.new_zmm("c"); r.k1 = c.new_kw("k1"); r.k2 = c.new_kw("k2");
+      r.p = c.new_gp_ptr("p"); r.g1 = c.new_gp32("g1"); r.g2 = c.new_gp32("g2");
+      if (!r.a.is_valid() || !r.b.is_valid() || !r.c.is_valid() || !r.k1.is_valid() || !r.k2.is_valid() || !r.p.is_valid() || !r.g1.is_valid() || !r.g2.is_valid()) { R.null_result(); return; }
+      fn->set_arg(0, r.p); fn->set_arg(1, r.g1);
+      E(c.mov(r.g2, 7)); E(c.vpxord(r.a, r.a, r.a)); E(c.vpternlogd(r.b, r.b, r.b, 0xFF)); E(c.vmovdqa32(r.c, r.b));
+      E(c.kxnorw(r.k1, r.k1, r.k1)); E(c.kshiftrw(r.k2, r.k1, 3));
+      GATE();
+    }
+    else {
+      r.a = x86::zmm3; r.b = x86::zmm17; r.c = x86::zmm30; r.k1 = x86::k1; r.k2 = x86::k5;
+      r.p = x86::rdx; r.g1 = x86::eax; r.g2 = x86::ebx; r.cnt = x86::rcx;
+    }
+    Label top = e.new_label();
+    if (!top.is_valid()) { R.null_result(); return; }
+    E(e.bind(top)); GATE();
+    uint32_t n = slots();
+    n -= n % 12u;
+    // Assembler: the only requests of an emit call are the section buffer's malloc/realloc. Twelve extra sections, the
+    // first emit into section s is of kind s: every kind of one-shot state meets a failing buffer allocation.
+    uint32_t total = n + (std::is_same<EM, x86::Assembler>::value ? 12u * 48u : 0u);
+    if (drop) drop->assign(total, 0);
+    Section* extra[12] = {};
+    if constexpr (std::is_same<EM, x86::Assembler>::value) {
+      for (uint32_t sct = 0; sct < 12; sct++) {
+        char nm[16]; snprintf(nm, sizeof nm, ".s%u", sct);
+        E(e.code()->new_section(Out(extra[sct]), nm, SIZE_MAX, SectionFlags::kExecutable, 16, int32_t(sct) + 1));
+      }
+      GATE();
+    }
+    for (uint32_t i = 0; i < total; i++) {
+      if (i >= n) {
+        uint32_t sct = (i - n) / 48u, j = (i - n) % 48u;
+        if (j == 0) { E(e.section(extra[sct])); GATE(); }
+        if (j < sct || j >= sct + 24u) continue;     // section s holds kinds s, s+1, ... (24 emit calls)
+      }
+      if (skip && i < skip->size() && (*skip)[i]) continue;
+      uint32_t handler_before = R.handler;
+      Error err = w7_slot(e, i, r, EMITTER != 2);
+      if (err == Error::kOk) continue;
+      if (err == Error::kOutOfMemory) R.handler = handler_before;   // delivered by the return value and handled by the caller (skip)
+      // the call is refused: the caller drops it and goes on with the same emitter ...
+      if (drop) (*drop)[i] = 1;
+      if (err != Error::kOutOfMemory) R.rec(err);
+      // ... which must not remember anything of it (direct state oracle)
+      char b[160];
+      if (e.inst_options() != InstOptions::kNone) { snprintf(b, sizeof b, "emit #%u (kind %u) refused with error %u left inst_options=0x%x;", i, i % 12u, unsigned(err), unsigned(e.inst_options())); out.defects += b; }
+      if (e.extra_reg().is_reg()) { snprintf(b, sizeof b, "emit #%u (kind %u) refused with error %u left the extra register (opmask / rep counter) set;", i, i % 12u, unsigned(err)); out.defects += b; }
+      if (e.inline_comment() != nullptr) { snprintf(b, sizeof b, "emit #%u (kind %u) refused with error %u left the inline comment set;", i, i % 12u, unsigned(err)); out.defects += b; }
+      // (no reset_state() here: a caller would not do that, and the byte oracle must see what the next call inherits)
+      if (R.stopped()) return;
+    }
+    if constexpr (std::is_same<EM, x86::Assembler>::value) { E(e.section(e.code()->text_section())); GATE(); }
+    E(e.test(r.g1, r.g1));
+    E(e.jnz(top));
+    if constexpr (std::is_same<EM, x86::Compiler>::value) { E(e.ret(r.g1)); E(e.end_func()); }
+    else E(e.ret());
+  }
+
+  template<typename EM>
+  void whole(CodeHolder& C, EM& e, StringLogger* lg, Rec& R, Result& out, const std::vector<uint8_t>* skip, std::vector<uint8_t>* drop) {
+    out.defect_kind = "one-shot-state-survives-refused-emit";
+    if (!C.is_initialized()) { E(C.init(Environment(Arch::kX64))); GATE(); }
+    C.set_error_handler(&eh);
+    if (lg && EMITTER != 0) { lg->set_flags(FormatFlags::kMachineCode); C.set_logger(lg); }
+    E(C.attach(&e)); GATE();
+    program(e, R, out, skip, drop); CHK(); GATE();
+    if constexpr (EMITTER != 0) { E(e.finalize()); GATE(); }
+    Labels L;
+    finish_image(C, R, out, L, kBase);
+    if (lg && EMITTER != 0) out.aux.assign(lg->data(), lg->data_size());
+  }
+
+  void body(Rec& R, Result& out) override {
+    eh.R = &R;
+    if constexpr (EMITTER == 0) whole(*code, *as, &*logger, R, out, nullptr, &dropped);
+    else if constexpr (EMITTER == 1) whole(*code, *cb, &*logger, R, out, nullptr, &dropped);
+    else whole(*code, *cc, &*logger, R, out, nullptr, &dropped);
+    for (uint8_t d : dropped) ST.emits_refused += d;
+  }
+
+  bool reference(Rec& R, Result& out) override {
+    CountingHandler* keep = &eh; (void)keep;
+    eh.R = &R;
+    CodeHolder C;
+    if constexpr (EMITTER == 0) { x86::Assembler e; whole(C, e, nullptr, R, out, &dropped, nullptr); }
+    else if constexpr (EMITTER == 1) { x86::Builder e; whole(C, e, nullptr, R, out, &dropped, nullptr); }
+    else { x86::Compiler e; whole(C, e, nullptr, R, out, &dropped, nullptr); }
+    out.aux.clear();
+    return true;
+  }
+
+  int recover(int strategy, Rec& R) override { logger->clear(); return recover_holder(*code, strategy, R); }
+  void destroy() override { as.reset(); cb.reset(); cc.reset(); code.reset(); logger.reset(); }
+};
+
 // @@WORKLOADS@@
 
 // =========================================================================================================
@@ -1520,7 +1675,7 @@ static void marker(const char* mode, int style, int strategy) {
 
 static const char* mode_name(int m) { return m == M_COUNT ? "count" : m == M_SINGLE ? "single" : m == M_STICKY ? "sticky" : m == M_TWIN ? "twin" : "pattern"; }
 
-struct Deferred { Rec R1, Rr, R2; Result o1, o2; int strategy; int variant; uint64_t fired, k; int mode, npat; uint64_t pat[16]; uintptr_t site[kSiteDepth]; };
+struct Deferred { Rec R1, Rr, R2, Rf; Result o1, o2, ref; bool has_ref = false; int strategy; int variant; uint64_t fired, k; int mode, npat; uint64_t pat[16]; uintptr_t site[kSiteDepth]; };
 static bool g_defer = false;      // cold mode: the armed case runs first, the failure-free reference afterwards
 static std::vector<Deferred> g_deferred;
 
@@ -1535,14 +1690,21 @@ static void judge(const Deferred& d) {
     if (R1.reported()) { ST.reported++; if (R1.first_err < 64) ST.errs_by_code[R1.first_err]++; }
     else ST.tolerated++;
   }
-  if (!R1.reported() && d.o1.main != g_clean.main)
+  if (d.has_ref) {
+    // continue mode: refused emit calls are expected; anything else that reported exempts the comparison
+    if (d.Rf.reported()) viol("harness-reference-run-failed", "the failure-free reference with the refused calls omitted reported an error");
+    else if (!R1.reported() && d.o1.main != d.ref.main)
+      viol("wrong-code-after-refused-call", "the refused calls were skipped, every other call returned kOk, but the output differs from a failure-free run that omits exactly those calls: " + first_diff(d.o1.main, d.ref.main));
+    else if (!R1.reported()) ST.continue_ok++;
+  }
+  else if (!R1.reported() && d.o1.main != g_clean.main)
   {
     if (!d.o1.image.empty()) { g_viol_images[0] = d.o1.main; g_viol_images[1] = g_clean.main; }   // image + label offsets
     viol("silent-wrong-output", "no call reported an error but the output differs from the failure-free run: " + first_diff(d.o1.main, g_clean.main));
     g_viol_images[0].clear(); g_viol_images[1].clear();
   }
-  if (!d.o1.defects.empty()) viol("jit-memory-kept-after-failed-add", "while the JitRuntime is alive: " + d.o1.defects.substr(0, 400));
-  if (!d.o2.defects.empty()) viol("jit-memory-kept-in-retry", "in the retry with memory available: " + d.o2.defects.substr(0, 400));
+  if (!d.o1.defects.empty()) viol(d.o1.defect_kind, "with the objects still alive: " + d.o1.defects.substr(0, 400));
+  if (!d.o2.defects.empty()) viol((std::string(d.o2.defect_kind) + "-in-retry").c_str(), "in the retry with memory available: " + d.o2.defects.substr(0, 400));
   if (d.Rr.reported()) viol("recover-failed", "reset/reinit after the failure reported error " + std::to_string(d.Rr.first_err));
   if (R2.reported()) {
     char b[200]; snprintf(b, sizeof b, "retry with memory available (recover strategy %d) reported an error: errs=%u first=%u (call %u) handler=%u nulls=%u", strategy, R2.errs, R2.first_err, R2.first_err_call, R2.handler, R2.nulls);
@@ -1584,6 +1746,8 @@ static bool run_case(Workload& W, int style_stop, int strategy) {
     if (!o1.defects.empty()) { fprintf(stderr, "HARNESS: failure-free run of %s: %s\n", g_wname.c_str(), o1.defects.c_str()); ok = false; }
     g_clean = o1; g_have_clean = true;
   }
+  Rec Rf; Result oref; bool has_ref = false;
+  if (F.mode != M_COUNT) { ApiScope api; has_ref = W.reference(Rf, oref); }
   // (armed cases are judged after phase 2)
   // phase 2: same objects, memory available again
   {
@@ -1601,7 +1765,7 @@ static bool run_case(Workload& W, int style_stop, int strategy) {
       if (o2.main != g_clean.main || o2.aux != g_clean.aux) g_retry_differs_from_first |= 1u << strategy;
     }
     else {
-      Deferred d; d.R1 = R1; d.Rr = Rr; d.R2 = R2; d.o1 = o1; d.o2 = o2; d.strategy = strategy; d.variant = variant; d.fired = F.fired; d.k = F.k; d.mode = F.mode; d.npat = F.npat;
+      Deferred d; d.Rf = Rf; d.ref = oref; d.has_ref = has_ref; d.R1 = R1; d.Rr = Rr; d.R2 = R2; d.o1 = o1; d.o2 = o2; d.strategy = strategy; d.variant = variant; d.fired = F.fired; d.k = F.k; d.mode = F.mode; d.npat = F.npat;
       memcpy(d.pat, F.pat, sizeof d.pat); memcpy(d.site, F.first_site, sizeof d.site);
       if (g_defer) g_deferred.push_back(d); else judge(d);
     }
@@ -1625,8 +1789,8 @@ static void emit_json(const Args& args, int cls, int mode, int rc_note) {
   o += "\"workload\":" + jstr(g_wname) + ",\"class\":" + jstr(cls >= 0 ? kClassNames[cls] : "-") + ",\"mode\":" + jstr(mode_name(mode));
   char b[256];
   snprintf(b, sizeof b, ",\"N\":{\"arena\":%llu,\"heap\":%llu,\"vm\":%llu}", (ull)g_N[0], (ull)g_N[1], (ull)g_N[2]); o += b;
-  snprintf(b, sizeof b, ",\"cases\":%llu,\"fired_cases\":%llu,\"reported\":%llu,\"tolerated\":%llu,\"not_fired\":%llu,\"retry_ok\":%llu,\"requests_failed\":%llu",
-           (ull)ST.cases, (ull)ST.fired_cases, (ull)ST.reported, (ull)ST.tolerated, (ull)ST.not_fired, (ull)ST.retry_ok, (ull)ST.requests_failed); o += b;
+  snprintf(b, sizeof b, ",\"cases\":%llu,\"fired_cases\":%llu,\"reported\":%llu,\"tolerated\":%llu,\"not_fired\":%llu,\"retry_ok\":%llu,\"requests_failed\":%llu,\"continue_ok\":%llu,\"emits_refused\":%llu",
+           (ull)ST.cases, (ull)ST.fired_cases, (ull)ST.reported, (ull)ST.tolerated, (ull)ST.not_fired, (ull)ST.retry_ok, (ull)ST.requests_failed, (ull)ST.continue_ok, (ull)ST.emits_refused); o += b;
   snprintf(b, sizeof b, ",\"heap_wrapper_calls\":%llu,\"vm_wrapper_calls\":%llu,\"exe_base\":%llu,\"harness_ok\":%d,\"retry_differs_from_first\":%u,\"workers_killed\":%llu", (ull)g_heap_calls, (ull)g_vm_calls, (ull)g_exe_base, rc_note, g_retry_differs_from_first, (ull)SH->workers_killed); o += b;
   { uint64_t h = fnv1a(g_clean.main.data(), g_clean.main.size()); o += ",\"clean_hash\":" + jstr(hexstr(&h, 8)); }
   snprintf(b, sizeof b, ",\"clean_size\":%zu,\"clean_aux_size\":%zu", g_clean.main.size(), g_clean.aux.size()); o += b;
@@ -1824,6 +1988,9 @@ static Workload* make_workload(const std::string& n) {
   if (n == "W4nomemfd") return new W4<uint32_t(JitAllocatorOptions::kUseDualMapping)>();
   if (n == "W4far") return new W4<0, 1>();
   if (n == "W4fardual") return new W4<uint32_t(JitAllocatorOptions::kUseDualMapping | JitAllocatorOptions::kImmediateRelease), 1>();
+  if (n == "W7asm") return new W7<0>();
+  if (n == "W7bld") return new W7<1>();
+  if (n == "W7cc") return new W7<2>();
   // @@REGISTRY@@
   return nullptr;
 }
